@@ -114,7 +114,7 @@ analysis.POST["solution"] = solution_check
 
 def calendars(tier):
     c = [{}, {"delta_time": {"$td": 900}, "start_time": {"$dt": [2024, 2, 28, 22, 30]}}, {"delta_time": {"$td": 86400}, "start_time": {"$dt": [2024, 2, 27, 0, 0]}}]
-    if tier == "thorough":
+    if tier in ("thorough", "deep"):
         c += [{"delta_time": {"$td": 129600}, "start_time": {"$dt": [2023, 12, 30, 12, 0]}}, {"delta_time": {"$td": 900}},
               {"delta_time": {"$td": 604800}, "start_time": {"$dt": [2024, 1, 1, 0, 0]}}]
     return c
@@ -193,5 +193,8 @@ def witness(entry):
 
 
 def main(tier):
-    return common.run_space_check("C11", tier, jobs(tier), RULE, ASSUME, budget_s=110 if tier == "quick" else 1500,
+    js = jobs(common.level("C11", tier))
+    if common.level("C11", tier) == "deep":
+        js = common.widen(js, by=(1, 2))
+    return common.run_space_check("C11", tier, js, RULE, ASSUME, budget_s=110 if tier == "quick" else 1500,
                                   confirm=confirm, witness=witness)
